@@ -117,6 +117,16 @@ def run(R: vlib.Run):
         ("pack-order", lambda: bits.pack(np.zeros(8, dtype=np.uint8), 4, bitorder="xyz")),
         ("pack-bufsize", lambda: bits.pack(np.zeros(8, dtype=np.uint8), 4, np.zeros(5, dtype=np.uint8))),
     ]
+    # every wrong buffer size around the right one (under- and over-sized by less than, exactly, and more than one byte's worth)
+    for nb in (1, 2, 4):
+        bf = 8 // nb
+        for nbytes in (1, 4):
+            for sz in range(0, 2 * nbytes * bf + 3):
+                if sz != nbytes * bf:
+                    bad.append((f"unpack{nb}-bufsize-{nbytes}x{bf}-got{sz}", lambda nb=nb, nbytes=nbytes, sz=sz: bits.unpack(np.zeros(nbytes, dtype=np.uint8), nb, np.zeros(sz, dtype=np.uint8))))
+            for sz in range(0, 2 * nbytes + 3):
+                if sz != nbytes:
+                    bad.append((f"pack{nb}-bufsize-{nbytes}-got{sz}", lambda nb=nb, nbytes=nbytes, sz=sz, bf=bf: bits.pack(np.zeros(nbytes * bf, dtype=np.uint8), nb, np.zeros(sz, dtype=np.uint8))))
     # bit-order spellings: io/bits.py accepts exactly the strings whose first character is a lower-case 'b' or 'l';
     # every other spelling (capitalised, padded, unrelated) is a wrong bit order and must be refused for unpack and pack
     for i, sp in enumerate(["Big", "BIG", "B", "Little", "LITTLE", "L", " big", "msb", "x", "1", "Big-endian"]):
@@ -189,3 +199,41 @@ Eval vm_compute in (length cases, idx).""")
         nbad_total += len(badidx)
     R.extra_cov["correspondence_cases"] = len(allc)
     return R
+
+
+def scale(R: vlib.Run):
+    """at-scale search: millions of samples per call (thresholds that switch code paths), every depth and order, with and without buffers"""
+    from sigpyproc.io import bits
+    nprng = np.random.default_rng(R.seed + 303)
+    for nbits in (1, 2, 4):
+        bf = 8 // nbits
+        for big in (True, False):
+            oname = "big" if big else "little"
+            for nbytes in (8192, 65536 // bf, 65536, (1 << 18) // bf, 1 << 18, (1 << 20) // bf + 8, (1 << 22) // bf, (1 << 22) + 16, (1 << 24) // bf + 64):
+                R.tick({"nbits": nbits, "order": oname, "nbytes": nbytes})
+                R.case(("scale", nbits, oname, nbytes), regime="scale")
+                packed = nprng.integers(0, 256, nbytes, dtype=np.uint8)
+                # reference through numpy's own bit unpacking: fields of a byte, most significant first when big
+                b8 = np.unpackbits(packed).reshape(-1, bf, nbits)
+                vals = np.zeros((nbytes, bf), dtype=np.uint8)
+                for k in range(nbits):
+                    vals = (vals << 1) | b8[:, :, k]
+                want = (vals if big else vals[:, ::-1]).ravel()
+                case = {"nbits": nbits, "order": oname, "nbytes": int(nbytes), "data": f"numpy.random.default_rng({R.seed + 303}) stream, see props/c03.py scale()"}
+                try:
+                    un = bits.unpack(packed.copy(), nbits, bitorder=oname)
+                    if un.shape != want.shape or not np.array_equal(un, want):
+                        R.fail("scale-unpack", "unpack at scale differs from the bit-field definition", dict(case, first_diff=int(np.argmax(un != want)) if un.shape == want.shape else None)); continue
+                    buf = np.full(want.size, 7, dtype=np.uint8)
+                    un2 = bits.unpack(packed.copy(), nbits, buf, bitorder=oname)
+                    if not np.array_equal(un2, want):
+                        R.fail("scale-unpack-buffer", "unpack into a caller buffer at scale differs", case); continue
+                    pk = bits.pack(want.copy(), nbits, bitorder=oname)
+                    if pk.shape != packed.shape or not np.array_equal(pk, packed):
+                        R.fail("scale-pack", "pack at scale differs from the bit-field definition", dict(case, first_diff=int(np.argmax(pk != packed)) if pk.shape == packed.shape else None)); continue
+                    pbuf = np.full(nbytes, 9, dtype=np.uint8)
+                    pk2 = bits.pack(want.copy(), nbits, pbuf, bitorder=oname)
+                    if not np.array_equal(pk2, packed):
+                        R.fail("scale-pack-buffer", "pack into a caller buffer at scale differs", case)
+                except Exception as e:  # noqa: BLE001
+                    R.fail("scale-exception", f"pack/unpack at scale raised {type(e).__name__}: {str(e)[:100]}", case)
